@@ -246,6 +246,36 @@ func (e *Engine) registerFSIntrinsics() {
 		return Tuple{Ptr(nil), refused(r)}
 	}
 	in["(*os.File).Close"] = func(r *Run, fr *frame, a []Value) Value { return Iface{} }
+	// os.OpenFile for the flag combinations that create files
+	exist := func(r *Run) Value { return *r.global(r.eng.prog.ImportedPackage("io/fs").Var("ErrExist")) }
+	in["os.OpenFile"] = func(r *Run, fr *frame, a []Value) Value {
+		flags := r.concreteInt(a[1], "OpenFile flags")
+		const oCreate, oExcl, oTrunc = 0x40, 0x80, 0x200
+		ok := func() Value {
+			slot := new(Value)
+			*slot = &fileObj{}
+			return Tuple{Ptr(slot), Iface{}}
+		}
+		switch {
+		case flags&oCreate != 0 && flags&oExcl != 0:
+			switch r.concreteInt(callH(r, fr, "vfsCreateExcl", a[0]), "vfsCreateExcl") {
+			case 0:
+				return ok()
+			case 1:
+				return Tuple{Ptr(nil), exist(r)}
+			}
+			return Tuple{Ptr(nil), refused(r)}
+		case flags&oCreate != 0 && flags&oTrunc != 0:
+			if callH(r, fr, "vfsCreate", a[0]).(BoolV).C {
+				return ok()
+			}
+			return Tuple{Ptr(nil), refused(r)}
+		}
+		panic(unsupported("os.OpenFile with flags %#x", flags))
+	}
+	in["os.IsExist"] = func(r *Run, fr *frame, a []Value) Value {
+		return r.equal(nil, a[0], exist(r))
+	}
 }
 
 type fileInfoObj struct{ dir bool }
